@@ -60,6 +60,24 @@ def judge(case):
                     v("root-grad-dtype", f"root is {out.dtype}, its .grad is {rgr.dtype} (upstream gradient {np.dtype(gdt).name})")
                 if tuple(rgr.shape) != tuple(out.shape):
                     v("root-grad-shape", f"root shape {out.shape}, .grad shape {rgr.shape}")
+    if accepted and np.float32 in results:
+        from mc import gradcheck
+        arrays32 = fam.arrays_for(case, dtype=np.float32)
+        if any(a.ndim >= 2 and a.size > 1 and a.dtype.kind == "f" for a in arrays32):
+            for lname, conv in gradcheck.LAYOUTS:
+                alt = [conv(np.array(a, copy=True)) if a.dtype.kind == "f" else np.array(a, copy=True) for a in arrays32]
+                try:
+                    if fam is ct: o2, _ = fam.run_lib(case, alt, None, copy=False)
+                    else:
+                        cn.COPY = False
+                        try: o2, _ = fam.run_lib(case, alt, None)
+                        finally: cn.COPY = True
+                except harness.HarnessError:
+                    raise
+                except Exception:
+                    continue
+                if np.asarray(o2.data).dtype != np.float32:
+                    v("result-dtype", f"float32 operands in {lname} layout -> {np.asarray(o2.data).dtype} result")
     if np.float32 in results and np.float64 in results:
         a, b = results[np.float32].astype(np.float64), results[np.float64].astype(np.float64)
         if a.shape != b.shape:
